@@ -69,6 +69,12 @@ theorem C23_flat_index_surjective (numblocks : List Nat) (k : Nat) (hk : k < nbl
 theorem C23_grid_mem (numblocks bid : List Nat) : bid ∈ grid numblocks ↔ InGrid numblocks bid :=
   Dask.Lemmas.Hist.mem_grid numblocks bid
 
+/-- `itertools.product` order IS flat-index order: the k-th block id of the grid has flat index k
+(so `sizes[flat]` / `bitgens[flat]`, both listed in product order, belong to that block) -/
+theorem C23_grid_order (numblocks : List Nat) :
+    (grid numblocks).map (flatIndex numblocks) = List.range (nblocks numblocks) :=
+  Dask.Lemmas.Hist.grid_flatIndex numblocks
+
 /-- trailing `extra_chunks` coordinates (multinomial) do not change the index -/
 theorem C23_flat_index_extra (numblocks bid extra : List Nat) (h : InGrid numblocks bid) :
     flatIndex numblocks (bid ++ extra) = flatIndex numblocks bid :=
